@@ -251,17 +251,69 @@ PROPS["C01"] = {
                  "C01_fixed_size_frame_end_to_end", "C01_stream_end_to_end_lpc", "C01_stream_end_to_end_no_lpc"],
     "streams": "ENC+DLV", "rule": "ENC+DLV",
     "oracle": lambda pid, res, driver: enc_oracle(pid, res, driver) + enc_oracle(pid, res, driver, "DLV"),
-    "assumptions": ["PARTIAL: proved are the meaning of the emitted components (predictors, residual coding, stereo) and that the independent "
-                    "decoder reads exactly that meaning from the bits/bytes a verified subframe serialises to; frame framing (header fields, CRCs, "
-                    "padding) and STREAMINFO are decided per run by the extracted independent decoder on the implementation's output",
+    "assumptions": ["the theorems are about the hand-written encoder model; that the Rust encoder computes it is the byte-exact ENC / DLV correspondence, "
+                    "and the extracted independent decoder is additionally run on every stream the implementation emits",
                     "named hypothesis lpc_fits (LPC residuals representable in i32) - evaluated by the model on every case",
                     "a panic inside the floating-point estimators cannot be exhibited by the model (monitored only)"],
 }
+def crc8_py(bs):
+    r = 0
+    for b in bs:
+        r ^= b
+        for _ in range(8):
+            r = ((r << 1) ^ 0x07) & 0xFF if r & 0x80 else (r << 1) & 0xFF
+    return r
+
+
+def header_oracle(pid, res, driver):
+    """C02 on single frame headers (CNT H cases): the bytes FrameHeader::write emitted are decoded by the RFC 9639 rules,
+    written here independently of the model: sync code, reserved bits, the UTF-8-like coded number (canonical length,
+    continuation bytes 10xxxxxx, value = the number asked for), CRC-8."""
+    findings = []
+    data = res.stream_data.get("CNT")
+    if not data:
+        return findings
+    for c, o in zip(data["cases"], data["impl"].get("debug", [])):
+        t = c.split(" ")
+        if len(t) < 9 or t[2] != "H" or " ok " not in o:
+            continue
+        m = re.search(r"written64=\d+ ([0-9a-f]+) same=", o)
+        if not m:
+            continue
+        b = bytes.fromhex(m.group(1))
+        num = int(t[8]); variable = t[7] == "S"
+        why = None
+        if len(b) < 6 or b[0] != 0xFF or (b[1] & 0xFE) != 0xF8 or (b[1] & 1) != (1 if variable else 0) or (b[3] & 1) != 0:
+            why = "sync code / reserved bits / blocking-strategy bit are wrong"
+        else:
+            h = b[4]
+            k = 0 if h < 0x80 else (None if h < 0xC0 else 1 if h < 0xE0 else 2 if h < 0xF0 else 3 if h < 0xF8 else 4 if h < 0xFC else 5 if h < 0xFE else 6 if h == 0xFE else None)
+            if k is None or len(b) < 5 + k + 1:
+                why = "coded number: invalid lead byte or too few bytes"
+            else:
+                v = h if k == 0 else (h & ((1 << (6 - k)) - 1) if k < 6 else 0)
+                ok = True
+                for cb in b[5:5 + k]:
+                    ok = ok and (cb & 0xC0) == 0x80
+                    v = (v << 6) | (cb & 0x3F)
+                if not ok:
+                    why = "coded number: continuation byte is not 10xxxxxx"
+                elif v != num:
+                    why = "coded number decodes to %d, not %d" % (v, num)
+                elif k != utf8len(num) - 1:
+                    why = "coded number is not in its shortest form"
+                elif crc8_py(b[:-1]) != b[-1]:
+                    why = "CRC-8 of the header is wrong"
+        if why:
+            findings.append({"case": c, "impl": o[:200], "why": "frame header is not well-formed FLAC: " + why})
+    return findings
+
+
 PROPS["C02"] = {
     "coq": "theories/Props/C02.v",
     "theorems": ["C02_block_size_codes", "C02_sample_rate_codes", "C02_number_roundtrip", "C02_number_defined", "C02_emitted_stream_strict"],
     "streams": "ENC+CNT", "rule": "ENC+CNT",
-    "oracle": lambda pid, res, driver: enc_oracle(pid, res, driver),
+    "oracle": lambda pid, res, driver: enc_oracle(pid, res, driver) + header_oracle(pid, res, driver),
     "search": lambda pid, res, hb: table_search(pid, res, hb),
     "assumptions": ["whole-stream strictness (sync, reserved bits, CRCs, padding, subframe limits, frame numbering, consistency with "
                     "STREAMINFO) is decided per run by the extracted strict validator on the implementation's bytes",
@@ -313,7 +365,7 @@ PROPS["C12"] = {
     "theorems": ["C12_failing_sink", "C12_expansion_preserves_bits"],
     "streams": [FAIL_STREAM],
     "rule": "FAIL: streams from the ENC generator (<= 1500 samples; all subframe kinds; frames precomputed (multi-thread) or not) "
-            "written - half of the cases as a whole stream, half as ONE COMPONENT written directly (a frame, a frame header, a subframe, "
+            "written - half of the cases as a whole stream, the other half as a whole stream with 1..3 further metadata blocks or as ONE COMPONENT written directly (a frame, a frame header, a subframe, "
             "the residual of a fixed / LPC subframe; index modulo the number present) - to a user sink implementing only the required methods that fails at call k, k absolute 0..59 or at a "
             "per-mille position of the total call count incl. exactly the end. Observable: verdict (ok / err-sink / panic), number "
             "and digest of accepted calls, number of accepted bits; the stream is also written to a healthy sink before and after the failed write "
@@ -528,10 +580,11 @@ def parse_oracle(pid, res, driver):
     data = res.stream_data.get("PARSE")
     counts = {"accepted_mutants": 0, "decode_panics_on_accepted": 0, "orig": 0, "mutants": 0}
     if data:
-        for c, o in zip(data["cases"], data["impl"].get("debug", [])):
+        for c, o, mo in zip(data["cases"], data["impl"].get("debug", []), data["model"]):
             t = c.split(" ")
             orig_hash, kind, hx = t[2], t[3], t[4]
             ot = o.split(" ")
+            mt = mo.split(" ")
             verdict = ot[1] if len(ot) > 1 else "no-output"
             short = {"case": c[:4000], "impl": o[:300]}
             if verdict in ("panic", "no-output"):
@@ -547,6 +600,18 @@ def parse_oracle(pid, res, driver):
                         findings.append(dict(short, why="parsing an emitted stream did not consume/verify/re-serialise/decode to the original"))
             else:
                 counts["mutants"] += 1
+                if kind == "hdr" and verdict == "ok":
+                    # a frame whose header was rewritten (other codes, another coded number) with consistent CRCs.  When the parser
+                    # accepts it the re-serialised bytes are compared with the MODEL's (correspondence); they need not equal the
+                    # input: the parser is lenient on inputs the writer never produces (non-zero padding bits after a shorter
+                    # subframe, fixed-blocking numbers >= 2^32), so equality with the input is only counted, not demanded.
+                    counts["accepted_hdr"] = counts.get("accepted_hdr", 0) + 1
+                    if len(ot) > 2 and ot[2] == hx:
+                        counts["accepted_hdr_reserialised_identically"] = counts.get("accepted_hdr_reserialised_identically", 0) + 1
+                if kind == "hdr" and pid == "C15" and len(mt) > 2 and mt[1] == "ok" and mt[2] == hx and not (verdict == "ok" and len(ot) > 2 and ot[2] == hx):
+                    # the model exhibits a tree whose serialisation is exactly these bytes (so the input IS an emitted frame of the
+                    # writer the ENC/CTOR streams tie to the model), and the implementation's parser does not give it back
+                    findings.append(dict(short, model=mo[:300], why="these bytes are the serialisation of a tree (the model parses them and writes the same bytes back), but the implementation's parser rejects them or returns a tree that serialises differently"))
                 if verdict == "ok" and kind in ("flip", "burst") and m:
                     counts["accepted_mutants"] += 1
                     if m.group(2) == "panic":
@@ -568,7 +633,7 @@ PARSE_STREAM = {"name": "PARSE", "quick": 6000, "thorough": 150000, "profiles": 
 PARSE_RULE = ("PARSE: small emitted streams (1-3 channels, 8/16/24 bits, blocks 32..128, 1-2 frames, every subframe kind via random "
               "verified configurations) and mutants of them: single-bit flips at random positions inside the frames (EVERY bit position "
               "of every frame in the thorough tier), 2..8-bit bursts at random positions, truncation at a random byte, single-bit flips "
-              "in the metadata, random byte strings with and without the fLaC marker. Observable: verdict (ok/err/panic), re-serialised "
+              "in the metadata, random byte strings with and without the fLaC marker, and frames whose header was REWRITTEN with both CRCs made consistent again (hdr: every block-size / sample-rate / channel / sample-size code incl. the reserved ones, reserved bits, blocking bit, and coded numbers at the boundaries and inside every length class up to 2^36-1). Observable: verdict (ok/err/panic), re-serialised "
               "bytes; for accepted inputs also verify, decoded-audio hash and count_bits. Non-trivial = a mutant inside a frame or a "
               "truncation.")
 
@@ -1136,7 +1201,7 @@ def run_check(pid, spec, tier, seed, replay):
     if spec.get("rule") == "ENC":
         spec["rule"] = ENC_RULE
     if spec.get("rule") == "ENC+CNT":
-        spec["rule"] = ENC_RULE + " CNT: directly constructed residuals (partition order 0..4, partition sizes 1..65, parameters 0..14, up to 3 quotients of 2^28..2^32-1 so sums cross 2^32; written through a counting sink) and frame headers (every block-size / sample-rate code class, frame numbers to 2^31-1, start samples to 2^36-1, through both MemSink types). Non-trivial = residual > 200 bits or number > 127."
+        spec["rule"] = ENC_RULE + " CNT: directly constructed residuals (partition order 0..4, partition sizes 1..65, parameters 0..14, up to 3 quotients of 2^28..2^32-1 so sums cross 2^32; written through a counting sink) and frame headers (every block-size / sample-rate code class, frame numbers to 2^31-1, start samples to 2^36-1, half of them drawn uniformly from one length class of the coded number, through both MemSink types), and streams with 0..4 further metadata blocks of 0..500 payload bytes (kind M). Non-trivial = residual > 200 bits or number > 127."
     res = Result(pid)
     res.rule = spec.get("rule", "")
     res.assumptions = spec.get("assumptions", [])
